@@ -3,33 +3,64 @@
    The FULL statement "for every declared 2xx response x content type the handler's decode path delivers a value of
    the annotated type re-encoding to the body / None / the text / the bytes / the stream items" — on the decision
    model:  forall d, C05_holds d = true  — is FALSE: four classes of counterexample, C05_refuted_F05b,c,f,i (F05e, F05g, F05h are fixed: C05_fixed_F05e/g/h).
-   PARTIAL (what is proved, for every registry and every operation shape, no bound on sizes):
-     C05_partial                  primary response, single non-stream JSON content: delivers, given the heuristic agrees
-     C05_partial_class            the same with the heuristic hypotheses DISCHARGED for every generated class name
-     C05_partial_secondary        secondary 2xx with JSON content
-     C05_partial_nocontent(_2)    no content -> None (primary / secondary)
-     C05_partial_stream_bytes/_events   streaming primaries
-     C05_partial_decode           abstract decode layer: a delivering JSON path returns a typed, re-encodable value
-   NOT proved (stated in harness/manifest/C05.json): the single statement  c05_guard d = true -> C05_holds d = true
-   over the record [dcase] (needs the nth/find glue under unique response keys, the content-type switch and the
-   collapsed multi-content case); heuristic hypotheses for List[...]/X | None/aliases are checked per case by
-   vm_compute in the correspondence run, not proved in general. *)
-From PG Require Import Lib.Strs Model.Dispatch Model.Response Proofs.Response.
+   PARTIAL: C05_partial below is ONE theorem over the whole record [dcase] with an executable guard equal to the
+   conjunction of the open findings; the older region theorems (C05_partial_primary_json, _class, _secondary, …) are
+   kept as corollary-style statements with explicit hypotheses.  The decode layer (json.loads, cattrs) is abstract:
+   C05_partial_decode.  The converse (guard exactness) does not hold: C05_guard_not_exact. *)
+From PG Require Import Lib.Strs Model.Dispatch Model.Response Proofs.Response Proofs.ResponseMain Proofs.ResponseHeur.
 
-Theorem C05_partial : forall reg o r n e ct imported,
+(* THE single statement.  For every well-formed case — module (list of operations of any shape), operation, declared 2xx
+   response (numeric or the "2XX" range) and one of its content entries (or none) — : if the executable guard holds (the
+   conjunction of the open findings F05b, F05c, F05f, F05i) then the decode path the generated handler takes for that
+   status and Content-Type delivers what the declared response calls for (None / text / bytes / stream / a value of the
+   declared type, structured by structure_from_dict(response.json(), <declared type>) with the import present), and the
+   method's return annotation covers the declared type.  No bound on the number of operations, responses or entries. *)
+Theorem C05_partial : forall d, wf_dcase d = true -> c05_guard d = true -> C05_holds d = true.
+Proof. exact guard_implies_holds. Qed.
+Print Assumptions C05_partial.
+
+(* the guard is sufficient, not exact (structuring a JSON-native type is harmless): C05_guard_exact does NOT hold *)
+Theorem C05_guard_not_exact : wf_dcase d_not_exact = true /\ C05_holds d_not_exact = true /\ c05_guard d_not_exact = false.
+Proof. exact guard_not_exact. Qed.
+Print Assumptions C05_guard_not_exact.
+
+Theorem C05_partial_nonvacuous :
+  wf_dcase d_ok = true /\ c05_guard d_ok = true /\ wf_dcase d_ok2 = true /\ c05_guard d_ok2 = true
+  /\ wf_dcase d_switch = true /\ c05_guard d_switch = true /\ wf_dcase d_F05g = true /\ c05_guard d_F05g = true
+  /\ wf_dcase d_F05h_202 = true /\ c05_guard d_F05h_202 = true.
+Proof. exact main_nonvacuous. Qed.
+Print Assumptions C05_partial_nonvacuous.
+
+Theorem C05_partial_primary_json : forall reg o r n e ct imported,
   cprocessed o = Some (r, n) -> cr_content r = [e] -> is_stream r = false -> json_like (c_media e) = true ->
   str_eqb (show (c_type e)) s_None = false -> prefixb (s_Union ++ s_lb) (show (c_type e)) = false ->
   heuristic_ok reg (c_type e) = true ->
   (needs_structure (c_type e) = true -> deser_direct reg (c_type e) = true /\ imported = true) ->
   delivers imported (handle reg o n ct) (ideal true r (Some e)) = true.
 Proof. exact primary_single_json. Qed.
-Print Assumptions C05_partial.
+Print Assumptions C05_partial_primary_json.
 
 Theorem C05_class_type_ok : forall reg n,
   class_name_ok n = true -> class_entry_ok reg n = true ->
   heuristic_ok reg (TClass n) = true /\ deser_direct reg (TClass n) = true.
 Proof. exact class_type_ok. Qed.
 Print Assumptions C05_class_type_ok.
+
+(* the same for `List[C]` and `C | None`: the string heuristic agrees with the need for structuring and the rendered
+   call targets the declared type, for every identifier-like class name C (no per-case computation) *)
+Theorem C05_list_class_type_ok : forall reg n,
+  class_name_ok n = true -> class_entry_ok reg n = true -> alookup s_List reg = None ->
+  heuristic_ok reg (TList (TClass n)) = true /\ deser_direct reg (TList (TClass n)) = true.
+Proof. exact list_class_type_ok. Qed.
+Print Assumptions C05_list_class_type_ok.
+Theorem C05_opt_class_type_ok : forall reg n,
+  class_name_ok n = true -> reg_keys_ident reg = true ->
+  heuristic_ok reg (TOpt (TClass n)) = true /\ deser_direct reg (TOpt (TClass n)) = true.
+Proof. exact opt_class_type_ok. Qed.
+Print Assumptions C05_opt_class_type_ok.
+(* NOT proved in general (evaluated per case by vm_compute in every correspondence run): alias types
+   (TAliasArr / TAliasPrim: need a consistency hypothesis between the registry's items info and the AST),
+   `List[C] | None`, nested lists and dict[str, C]. *)
 
 Theorem C05_partial_class : forall reg o r n e ct cn,
   cprocessed o = Some (r, n) -> cr_content r = [e] -> is_stream r = false -> json_like (c_media e) = true ->
@@ -98,18 +129,18 @@ Theorem C05_refuted_F05b_all : forall reg t imported,
   delivers imported (json_path reg t) (want_json t) = false.
 Proof. exact json_path_cast_fails. Qed.
 Print Assumptions C05_refuted_F05b_all.
-(* F05c: a secondary 2xx with content never yields the text or the bytes *)
-Theorem C05_refuted_F05c_all : forall reg o p n r m ct imported,
+(* F05c fixed part: a further 2xx response whose content is text only returns response.text *)
+Theorem C05_partial_secondary_text : forall reg o p n r m h ct imported,
   cprocessed o = Some (p, n) -> st_streaming (resolve o) = false -> m <> n -> find_status m (cothers o) = Some r -> lead2 m = true ->
-  cr_content r <> [] ->
-  delivers imported (handle reg o m ct) WText = false /\ delivers imported (handle reg o m ct) WBytes = false.
-Proof. exact secondary_never_text_or_bytes. Qed.
-Print Assumptions C05_refuted_F05c_all.
+  handler_schema (cr_content r) = Some h -> raw_accessor (cr_content r) (c_type h) = Some PText ->
+  handle reg o m ct = PText /\ delivers imported (handle reg o m ct) WText = true.
+Proof. exact secondary_text. Qed.
+Print Assumptions C05_partial_secondary_text.
 (* F05g FIXED: a "2XX" range that is the primary response handles every otherwise undeclared 2xx status *)
 Theorem C05_wildcard_primary : forall reg o w st ct,
   cprocessed o = None -> find_status st (cothers o) = None ->
   wildcard_resp o = Some w -> is_strategy_resp o w = true -> 200 <= st < 300 ->
-  handle reg o st ct = if is_none_ret (resolve o) then PNone else strategy_path reg (resolve o) ct.
+  handle reg o st ct = if is_none_ret (resolve o) then PNone else strategy_path reg (nd_of o) (pc_of o) (resolve o) ct.
 Proof. exact handle_wildcard_primary. Qed.
 Print Assumptions C05_wildcard_primary.
 
@@ -117,10 +148,19 @@ Theorem C05_refuted_F05b : guard_bits d_F05b = [false; true; true; true]
   /\ the_path d_F05b = PCast /\ the_want d_F05b = WJsonTyped (TLib [100;97;116;101;116;105;109;101]) /\ C05_holds d_F05b = false.
 Proof. exact refuted_F05b. Qed.
 Print Assumptions C05_refuted_F05b.
-Theorem C05_refuted_F05c : guard_bits d_F05c = [true; false; true; true]
-  /\ the_path d_F05c = PCast /\ the_want d_F05c = WText /\ C05_holds d_F05c = false.
+Theorem C05_fixed_F05c_text : c05_guard d_F05c_text = true /\ the_path d_F05c_text = PText /\ C05_holds d_F05c_text = true
+  /\ c05_guard d_F05c_text2 = true /\ the_path d_F05c_text2 = PText /\ C05_holds d_F05c_text2 = true.
+Proof. exact fixed_F05c_text. Qed.
+Print Assumptions C05_fixed_F05c_text.
+Theorem C05_refuted_F05c : guard_bits d_F05c = [true; false; true; false]
+  /\ the_path d_F05c = PStreamSse /\ the_want d_F05c = WJsonTyped (TClass [73;116;101;109]) /\ C05_holds d_F05c = false.
 Proof. exact refuted_F05c. Qed.
 Print Assumptions C05_refuted_F05c.
+(* F05f fixed for application/x-ndjson (regression on the old witness); json-seq / multipart remain open *)
+Theorem C05_fixed_F05f_ndjson : c05_guard d_F05f_ndjson = true /\ the_path d_F05f_ndjson = PStreamNdjson true
+  /\ the_want d_F05f_ndjson = WStreamLines /\ the_imported d_F05f_ndjson = true /\ C05_holds d_F05f_ndjson = true.
+Proof. exact fixed_F05f_ndjson. Qed.
+Print Assumptions C05_fixed_F05f_ndjson.
 Theorem C05_refuted_F05f : guard_bits d_F05f = [true; true; false; true]
   /\ the_path d_F05f = PStreamSse /\ the_want d_F05f = WStreamItems /\ C05_holds d_F05f = false.
 Proof. exact refuted_F05f. Qed.
